@@ -105,10 +105,12 @@ class Individual(metaclass=ABCMeta):
         return string
 
     def __eq__(self, other):
-        diff = 1
+        if len(self.vector) == 0:
+            return False
         for i in range(len(self.vector)):
-            diff = abs(self.vector[i] - other.vector[i])
-        return diff < 1e-10
+            if not abs(self.vector[i] - other.vector[i]) < 1e-10:
+                return False
+        return True
 
     def __hash__(self):
         return hash(tuple(self.vector))
